@@ -70,14 +70,14 @@ for _pid, _what in (("C03", "earliest arrival (reference forward solver over all
          "(proved). " + _M + " in full; " + _what + " is recomputed for every generated case by an independent brute-force reference and compared with the implementation's answer. "
          "This is testing of the property on generated inputs, not a proof.",
          "differential correspondence with the Lean model + reference solver on generated inputs (no theorem)")
-_reg("C04", "PROOF (over the model, on the property's own domain; one outcome left open): Tr.C04_optimal - for every well-formed dataset with positive hop times and ONE minimum waiting time "
-     "(no `transferable` line), scenario and arrival-time query: (1) a returned route departs no earlier than ANY admissible journey (AdmRev: access entry, permitted boarding of an admitted trip "
+_reg("C04", "PROOF (over the model, on the property's own domain; one outcome left open): Tr.C04_optimal - for every well-formed dataset with positive hop times (lines of the `transferable` mode "
+     "allowed: the property's 'one minimum waiting time' restriction is not needed after fix a7932ab), scenario and arrival-time query: (1) a returned route departs no earlier than ANY admissible journey (AdmRev: access entry, permitted boarding of an admitted trip "
      "at its stop, permitted alighting from which the place is still reached by the requested time - inductive RReach -, departure at or after 0:00, span within max_travel_time); that the "
      "route itself is an executable itinerary within those limits is Tr.C01 / Tr.C02_times / Tr.C02_arrival, so its departure IS the maximum; (2) when an admissible journey exists the answer "
      "is never no_routing_found (any reason). Proved by a completeness invariant of the single reverse scan relative to a cut line taken from the final state (max_travel_time; once an access "
      "stop is reached, its departure minus the longest access walk - Tr.revStep1_RCθ), the keep rule, the best-access selection (Tr.bestAccess_ge) and the transparency of the reverse hour "
-     "index. NOT proved: that the model's fuel-bounded reconstruction / clean-up never end in its `exception` outcome on well-formed data (observed by the correspondence, never seen). Outside "
-     "the domain the statement is false (DESIGN 7a O10: a `transferable` line). " + _M + "; the brute-force reference solver is still run on every answer.",
+     "index. NOT proved: that the model's fuel-bounded reconstruction / clean-up never end in its `exception` outcome on well-formed data (observed by the correspondence, never seen). The first "
+     "proof attempt needed uniform waiting at one step; the real code was wrong at the excluded point (a genuine C03 violation, repaired by a7932ab; inputs kept in corpus/). " + _M + "; the brute-force reference solver is still run on every answer.",
      "Lean 4 theorems (completeness invariant of the single reverse scan + best-access selection; with C01/C02 for achievability) + differential correspondence + reference solver")
 _reg("C06", "PROOF (full, over the model): Tr.C06_totals - the clock chain and every total/identity of the property hold for every journey value the emission pass "
      "can produce; Tr.C06_route lifts it to every route returned on a well-formed dataset. " + _M + "; " + _O + ".",
